@@ -40,6 +40,7 @@ static Val run_proxy(const Val &c)
         QObject scope;
         ProxyHandler *handler = new ProxyHandler(QHostAddress::LocalHost, port, &scope);
         SimTcp *tcp = new SimTcp;
+        if (c.size() > 7) tcp->setPeer(QHostAddress(QString::fromLatin1(c.at(7).asBytes())));      // the client's address (IPv6, IPv4-mapped, ..)
         tcp->onWrite = [&wire](const QByteArray &b) { wire += b; };
         tcp->onClose = [&closed]() { closed = true; };
         Socket *s = new Socket(tcp);
